@@ -467,3 +467,67 @@ def install(cfg):
             lazy = isinstance(what, tuple) and len(what) > 2 and what[2] is True
             res.append((desc, lazy))
         return HList(items=[d for d, lz in res if not lz])
+
+    @cfg.stub(api.spec_gcm_ok)
+    def spec_gcm_ok(interp, key, iv, aad, ct, tag):
+        from . import trusted_crypto as TC
+        kt, it, at, ct_, tt = [interp.bytes_term(x) for x in (key, iv, aad, ct, tag)]
+        return boolval(interp, z3.And(z3.Length(tt) == 16, TC.GCMOk(kt, it, at, ct_, tt)))
+
+    @cfg.stub(api.spec_gcm_dec)
+    def spec_gcm_dec(interp, key, iv, aad, ct, tag):
+        from . import trusted_crypto as TC
+        kt, it, at, ct_ = [interp.bytes_term(x) for x in (key, iv, aad, ct)]
+        return interp.mk("vbytes", TC.GCMDec(kt, it, at, ct_))
+
+    @cfg.stub(api.spec_unwrap_ok)
+    def spec_unwrap_ok(interp, kek, ek):
+        from . import trusted_crypto as TC
+        kt, et = interp.bytes_term(kek), interp.bytes_term(ek)
+        return boolval(interp, z3.And(z3.Length(et) >= 24, z3.Length(et) % 8 == 0, TC.UnwrapOk(kt, et)))
+
+    @cfg.stub(api.spec_unwrap)
+    def spec_unwrap(interp, kek, ek):
+        from . import trusted_crypto as TC
+        return interp.mk("vbytes", TC.Unwrap(interp.bytes_term(kek), interp.bytes_term(ek)))
+
+    @cfg.stub(api.spec_cbc_hs_tag)
+    def spec_cbc_hs_tag(interp, hname, mac_key, aad, iv, ct, n):
+        from . import trusted_crypto as TC
+        at = interp.bytes_term(aad)
+        al = S.I2OSP(8 * z3.Length(at), z3.IntVal(8))
+        msg = z3.Concat(at, interp.bytes_term(iv), interp.bytes_term(ct), al)
+        d = TC.HMAC(z3.StringVal(hname), interp.bytes_term(mac_key), msg)
+        return interp.mk("vbytes", z3.SubString(d, 0, n))
+
+    @cfg.stub(api.is_native)
+    def is_native(interp):
+        return False
+
+    @cfg.stub(api.random_draws)
+    def random_draws(interp, out):
+        res = []
+        for ev in interp.ctx.events:
+            if ev[0] == "draw":
+                res.append((ev[3], interp.from_term(mk_int(ev[2])), ev[1]))
+            elif ev[0] == "keygen":
+                res.append((ev[2], None, ev[1]))
+        return HList(items=res)
+
+    @cfg.stub(api.is_fresh_draw)
+    def is_fresh_draw(interp, value, n):
+        from . import trusted_crypto as TC
+        if not isinstance(value, SVal):
+            return False
+        t = simp(A["y"](value.t)) if head_tag(value.t) == "vbytes" else None
+        if t is None or not (z3.is_app(t) and t.decl().eq(TC.Draw)):
+            return False
+        nt = interp.int_term(n) if not isinstance(n, int) else z3.IntVal(n)
+        return boolval(interp, t.arg(1) == nt)
+
+    @cfg.stub(api.spec_deflate_raw)
+    def spec_deflate_raw(interp, b):
+        from . import trusted_crypto as TC
+        if is_plain(b):
+            return api.spec_deflate_raw(b)
+        return interp.mk("vbytes", TC.Deflate(interp.bytes_term(b)))
